@@ -237,6 +237,10 @@ func (x *Exec) execInstr(fr *Frame, st *State, in ssa.Instruction) {
 		h := x.heap(st, dn, ds)
 		_, inner := splitArraySort(ds)
 		st.heaps[dn] = tt.Store(h, r, tt.ConstArray(inner, tt.False()))
+		if _, used := x.heapSorts["G$published"]; used || x.prog.Cons.UsesPublished {
+			// a map that has just been made has not been published through an atomic.Value
+			x.addFact(tt.Not(tt.Select(x.heap(st, "G$published", arraySort("Int", "Bool")), r)))
+		}
 		x.setReg(st, i, r)
 	case *ssa.MakeSlice:
 		ln := x.toInt(asTerm(x.val(fr, st, i.Len)), i.Len.Type())
